@@ -117,7 +117,7 @@ pub fn qsieve(n: u64, v: Verbosity) -> Option<(u64, u64)> {
                 //eprintln!("relation {}^2 = {} * product({:?})", u, cofactor, &factors);
                 // Process relation
                 let rel = Relation {
-                    x: Uint::from(u as u64),
+                    x: Uint::from(u.unsigned_abs()),
                     cofactor,
                     factors,
                     cyclelen: 1,
